@@ -13,6 +13,7 @@ TABLE = [
     ("C05", r"solout", r"teval\.|support", ["teval_backward_endpoints", "tiny_time_scale", "teval_terminal"]),
     ("C03", r"dispatch_A", r".*", ["tiny_time_scale", "zero_length_dense", "first_step_rejected_then_success", "first_step_sign_and_overshoot"]),
     ("C06", r"dispatch", r".*", ["zero_length_dense", "sol_at_every_sample"]),
+    ("C06", r"method_map", r".*", ["sol_at_every_sample", "zero_length_dense", "dense_midstep_order"]),
     ("C06", r"cont_R", r"sol_many|evaluate_many", ["sol_many_range"]),
     ("C06", r"cont_R", r".*", ["tiny_time_scale", "sol_at_every_sample", "sol_many_range"]),
     ("C06", r"solout", r".*", ["dense_up_to_terminal_event", "sol_at_every_sample", "event_interpolant_right_end"]),
